@@ -182,12 +182,12 @@ func objectGetOwnProperty(obj *object, name string) *property {
 
 // 8.12.2.
 func objectGetProperty(obj *object, name string) *property {
-	prop := obj.getOwnProperty(name)
-	if prop != nil {
-		return prop
-	}
-	if obj.prototype != nil {
-		return obj.prototype.getProperty(name)
+	// A loop, not recursion: a prototype chain is as long as a script cares to make it
+	// (every class has this function for getProperty).
+	for ; obj != nil; obj = obj.prototype {
+		if prop := obj.getOwnProperty(name); prop != nil {
+			return prop
+		}
 	}
 	return nil
 }
